@@ -586,3 +586,175 @@ Proof.
   destruct (replace_ok (fun _ => None) s c e W Wc eq_refl) as (e' & R & W' & _ & D').
   rewrite R. cbn [bind]. rewrite eval_eden by assumption. rewrite D'. apply De. assumption.
 Qed.
+
+(* the checker's two-step substitution (KReplace): s1 first, then s2 *)
+Theorem replace_scalar_subst2 : forall r w s1 v1 s2 v2 x, rbounded r -> rsort r = SW w ->
+  1 <= sbits s1 < 2 ^ 64 -> 1 <= sbits s2 < 2 ^ 64 ->
+  rden (fun t => if scalar_eqb t s1 then Some (mkc (sbits s1) (U (sbits s1) v1))
+                 else if scalar_eqb t s2 then Some (mkc (sbits s2) (U (sbits s2) v2)) else None) r = Some x ->
+  (e <- build r ;;
+   e1 <- replace_scalar e s1 (EConst (new_big v1 (sbits s1))) ;;
+   e2 <- replace_scalar e1 s2 (EConst (new_big v2 (sbits s2))) ;; eval e2) = x.
+Proof.
+  intros r w s1 v1 s2 v2 x Bd St H1 H2 D.
+  rewrite !new_big_spec by lia.
+  set (c1 := mkc (sbits s1) (U (sbits s1) v1)) in *. set (c2 := mkc (sbits s2) (U (sbits s2) v2)) in *.
+  set (en := fun t => if scalar_eqb t s1 then Some c1 else if scalar_eqb t s2 then Some c2 else None) in *.
+  assert (Hen : env_ok en).
+  { intros t k E. unfold en in E. destruct (scalar_eqb t s1) eqn:E1.
+    - injection E as <-. cbn [c1 cbits cval]. split; [symmetry; apply scalar_eqb_bits; assumption|apply U_inr; lia].
+    - destruct (scalar_eqb t s2) eqn:E2; [|discriminate E].
+      injection E as <-. cbn [c2 cbits cval]. split; [symmetry; apply scalar_eqb_bits; assumption|apply U_inr; lia]. }
+  destruct (build_ok en Hen r w St Bd) as (e & B & W & _ & De).
+  rewrite B. cbn [bind].
+  assert (Wc1 : wf (EConst c1)) by (cbn [wf c1 cbits cval]; split; [lia|apply U_inr; lia]).
+  assert (Wc2 : wf (EConst c2)) by (cbn [wf c2 cbits cval]; split; [lia|apply U_inr; lia]).
+  destruct (replace_ok (fun t => if scalar_eqb t s2 then Some c2 else None) s1 c1 e W Wc1 eq_refl)
+    as (e1 & R1 & W1 & _ & D1).
+  rewrite R1. cbn [bind].
+  destruct (replace_ok (fun _ => None) s2 c2 e1 W1 Wc2 eq_refl) as (e2 & R2 & W2 & _ & D2).
+  rewrite R2. cbn [bind]. rewrite eval_eden by assumption. rewrite D2, D1. apply De. assumption.
+Qed.
+
+(* ---------- ill-sorted raw trees are rejected by a constructor (no width bound needed) ---------- *)
+
+Lemma sort2_SErr a b k : sort2 a b k = SErr ->
+  a = SErr \/ (exists x, a = SW x /\ b = SErr) \/ (exists x y, a = SW x /\ b = SW y /\ k x y = SErr).
+Proof.
+  destruct a as [| |x]; cbn [sort2]; intros H; [left; reflexivity|discriminate H|].
+  destruct b as [| |y]; [right; left; exists x; auto|discriminate H|].
+  right; right. exists x, y. auto.
+Qed.
+
+Lemma allones_shape w :
+  exists c, (if w <=? 64 then Ok (expr_const 18446744073709551615 w)
+             else c <- c_sub (new_big 0 w) (new_big 1 w) ;; Ok (EConst c)) = Ok (EConst c) /\ cbits c = w.
+Proof.
+  destruct (w <=? 64).
+  - eexists. split; reflexivity.
+  - unfold c_sub, same_sort. cbn [new_big cbits cval]. rewrite Z.eqb_refl. cbn [negb].
+    destruct (_ <? _); cbn [bind]; eexists; split; reflexivity.
+Qed.
+
+Ltac build_steps' :=
+  repeat (first [ rewrite mk_bin_ok by (cbn [e_bits is_cmp cbits new_big expr_const]; congruence)
+                | rewrite mk_ite_ok by (cbn [e_bits is_cmp cbits new_big expr_const]; congruence) ]; cbn [bind]).
+
+Lemma build_sorted : forall r w, rsort r = SW w -> exists e, build r = Ok e /\ e_bits e = w /\ 1 <= w.
+Proof.
+  induction r as [s|v k|o l IHl r IHr|o bits x IHx|c IHc t IHt f IHf|l IHl r IHr|l IHl r IHr];
+    intros w St; cbn [rsort build] in *.
+  - destruct (Z.ltb_spec (sbits s) 1); [discriminate St|]. injection St as <-.
+    eexists. split; [reflexivity|]. cbn [e_bits]. split; [reflexivity|lia].
+  - destruct (Z.ltb_spec k 1); [discriminate St|]. injection St as <-.
+    eexists. split; [reflexivity|]. cbn [e_bits expr_const new_big cbits]. split; [reflexivity|lia].
+  - apply sort2_SW in St as (x & y & Sl & Sr & K).
+    destruct (Z.eqb_spec x y); [|discriminate K]. subst y. injection K as <-.
+    destruct (IHl x Sl) as (l' & Rl & El & Bl). destruct (IHr x Sr) as (r' & Rr & Er & Br).
+    rewrite Rl, Rr. cbn [bind]. rewrite mk_bin_ok by congruence.
+    eexists. split; [reflexivity|]. cbn [e_bits]. rewrite El. split; [reflexivity|]. destruct (is_cmp o); lia.
+  - destruct (rsort x) as [| |xw] eqn:Sx; try (destruct o; discriminate St).
+    destruct (IHx xw eq_refl) as (x' & Rx & Ex & Bx). rewrite Rx. cbn [bind].
+    assert (K : w = bits /\ match o with Trun => 1 <= bits < xw | _ => xw < bits end).
+    { destruct o.
+      - destruct (Z.ltb_spec xw bits); [|discriminate St]. injection St as <-. auto.
+      - destruct (Z.ltb_spec xw bits); [|discriminate St]. injection St as <-. auto.
+      - destruct (Z.ltb_spec bits 1); [discriminate St|].
+        destruct (Z.ltb_spec bits xw); [|discriminate St]. injection St as <-. split; [reflexivity|lia]. }
+    destruct K as [-> K].
+    rewrite mk_ext_ok by (rewrite ?Ex; destruct o; lia).
+    eexists. split; [reflexivity|]. cbn [e_bits]. split; [reflexivity|]. destruct o; lia.
+  - apply sort2_SW in St as (xc & y & Sc & Sy & K).
+    destruct (Z.eqb_spec xc 1); [|discriminate K]. subst xc. injection K as ->.
+    apply sort2_SW in Sy as (xt & xf & Stt & Sf & K).
+    destruct (Z.eqb_spec xt xf); [|discriminate K]. subst xf. injection K as ->.
+    destruct (IHc 1 Sc) as (c' & Rc & Ec & Bc). destruct (IHt w Stt) as (t' & Rt & Et & Bt).
+    destruct (IHf w Sf) as (f' & Rf & Ef & Bf).
+    rewrite Rc, Rt, Rf. cbn [bind]. rewrite mk_ite_ok by congruence.
+    eexists. split; [reflexivity|]. cbn [e_bits]. auto.
+  - apply sort2_SW in St as (x & y & Sl & Sr & K).
+    destruct (Z.eqb_spec x y); [|discriminate K]. subst y. injection K as ->.
+    destruct (IHl w Sl) as (l' & Rl & El & Bl). destruct (IHr w Sr) as (r' & Rr & Er & Br).
+    rewrite Rl, Rr. cbn [bind]. unfold sra. rewrite El, Er, Z.eqb_refl. cbn [negb].
+    destruct (allones_shape w) as (c & -> & Ec). build_steps'.
+    eexists. split; [reflexivity|]. cbn [e_bits is_cmp]. auto.
+  - apply sort2_SW in St as (x & y & Sl & Sr & K).
+    destruct (Z.eqb_spec x y); [|discriminate K]. subst y. injection K as ->.
+    destruct (IHl w Sl) as (l' & Rl & El & Bl). destruct (IHr w Sr) as (r' & Rr & Er & Br).
+    rewrite Rl, Rr. cbn [bind]. unfold rotl. rewrite El. build_steps'.
+    eexists. split; [reflexivity|]. cbn [e_bits is_cmp]. auto.
+Qed.
+
+Lemma build_err : forall r, rsort r = SErr -> build r = Err ESort.
+Proof.
+  induction r as [s|v k|o l IHl r IHr|o bits x IHx|c IHc t IHt f IHf|l IHl r IHr|l IHl r IHr];
+    intros St; cbn [rsort build] in *.
+  - destruct (sbits s <? 1); discriminate St.
+  - destruct (k <? 1); discriminate St.
+  - apply sort2_SErr in St as [Sl|[(x & Sl & Sr)|(x & y & Sl & Sr & K)]].
+    + rewrite (IHl Sl). reflexivity.
+    + destruct (build_sorted l x Sl) as (l' & -> & _). rewrite (IHr Sr). reflexivity.
+    + destruct (build_sorted l x Sl) as (l' & -> & El & _). destruct (build_sorted r y Sr) as (r' & -> & Er & _).
+      cbn [bind]. destruct (Z.eqb_spec x y); [discriminate K|]. apply mk_bin_err. congruence.
+  - destruct (rsort x) as [| |xw] eqn:Sx.
+    + rewrite (IHx eq_refl). reflexivity.
+    + destruct o; discriminate St.
+    + destruct (build_sorted x xw Sx) as (x' & -> & Ex & Bx). cbn [bind]. unfold mk_ext. rewrite Ex.
+      destruct o.
+      * destruct (Z.ltb_spec xw bits); [discriminate St|]. destruct (Z.leb_spec bits xw); [reflexivity|lia].
+      * destruct (Z.ltb_spec xw bits); [discriminate St|]. destruct (Z.leb_spec bits xw); [reflexivity|lia].
+      * destruct (Z.ltb_spec bits 1); [discriminate St|]. destruct (Z.ltb_spec bits xw); [discriminate St|].
+        destruct (Z.leb_spec xw bits); [reflexivity|lia].
+  - apply sort2_SErr in St as [Sc|[(x & Sc & Sy)|(x & y & Sc & Sy & K)]].
+    + rewrite (IHc Sc). reflexivity.
+    + destruct (build_sorted c x Sc) as (c' & -> & _). cbn [bind].
+      apply sort2_SErr in Sy as [Stt|[(xt & Stt & Sf)|(xt & xf & Stt & Sf & K)]].
+      * rewrite (IHt Stt). reflexivity.
+      * destruct (build_sorted t xt Stt) as (t' & -> & _). rewrite (IHf Sf). reflexivity.
+      * destruct (build_sorted t xt Stt) as (t' & -> & Et & _).
+        destruct (build_sorted f xf Sf) as (f' & -> & Ef & _). cbn [bind].
+        destruct (Z.eqb_spec xt xf); [discriminate K|]. unfold mk_ite. rewrite Et, Ef.
+        destruct (Z.eqb_spec xt xf); [lia|]. cbn [negb]. rewrite orb_true_r. reflexivity.
+    + destruct (build_sorted c x Sc) as (c' & -> & Ec & _). cbn [bind].
+      apply sort2_SW in Sy as (xt & xf & Stt & Sf & _).
+      destruct (build_sorted t xt Stt) as (t' & -> & _). destruct (build_sorted f xf Sf) as (f' & -> & _).
+      cbn [bind]. destruct (Z.eqb_spec x 1); [discriminate K|]. unfold mk_ite. rewrite Ec.
+      destruct (Z.eqb_spec x 1); [lia|]. reflexivity.
+  - apply sort2_SErr in St as [Sl|[(x & Sl & Sr)|(x & y & Sl & Sr & K)]].
+    + rewrite (IHl Sl). reflexivity.
+    + destruct (build_sorted l x Sl) as (l' & -> & _). rewrite (IHr Sr). reflexivity.
+    + destruct (build_sorted l x Sl) as (l' & -> & El & _). destruct (build_sorted r y Sr) as (r' & -> & Er & _).
+      cbn [bind]. destruct (Z.eqb_spec x y); [discriminate K|]. unfold sra. rewrite El, Er.
+      destruct (Z.eqb_spec x y); [lia|]. reflexivity.
+  - apply sort2_SErr in St as [Sl|[(x & Sl & Sr)|(x & y & Sl & Sr & K)]].
+    + rewrite (IHl Sl). reflexivity.
+    + destruct (build_sorted l x Sl) as (l' & -> & _). rewrite (IHr Sr). reflexivity.
+    + destruct (build_sorted l x Sl) as (l' & -> & El & _). destruct (build_sorted r y Sr) as (r' & -> & Er & _).
+      cbn [bind]. destruct (Z.eqb_spec x y); [discriminate K|]. unfold rotl.
+      rewrite mk_bin_err by congruence. reflexivity.
+Qed.
+
+Theorem build_sort_error : forall r, rsort r = SErr -> (e <- build r ;; eval e) = Err ESort.
+Proof. intros r St. rewrite (build_err r St). reflexivity. Qed.
+
+(* ---------- the oracles of C04Check.v, literally ---------- *)
+
+(* KEval oracle: whatever rspec demands of a closed raw tree is what build-then-eval produces *)
+Theorem rspec_sound : forall r x, rbounded r -> rspec (fun _ => None) r = Some x ->
+  (e <- build r ;; eval e) = x.
+Proof.
+  intros r x Bd. unfold rspec. destruct (rsort r) as [| |w] eqn:St; intros D.
+  - injection D as <-. apply build_sort_error. assumption.
+  - discriminate D.
+  - eapply eval_den; eassumption.
+Qed.
+
+(* KBin oracle: operands of any two widths *)
+Theorem c_bin_spec_c : forall o a b, 1 <= cbits a < 2 ^ 64 -> 1 <= cbits b ->
+  inr (cbits a) (cval a) -> inr (cbits b) (cval b) -> c_bin o a b = sp_bin_c o a b.
+Proof.
+  intros o [aw av] [bw bv]. cbn [cbits cval]. intros Ha Hb Ra Rb. unfold sp_bin_c. cbn [cbits cval].
+  destruct (Z.eqb_spec aw bw) as [E|E]; cbn [negb].
+  - subst bw. apply c_bin_spec; assumption.
+  - apply c_bin_sort_error. cbn [cbits]. assumption.
+Qed.
